@@ -253,6 +253,8 @@ pub(crate) enum ExprErrorKind {
     UnexpectedValueForSignal(String, OutputValue),
     #[error("Division by zero")]
     DivisionByZero,
+    #[error("The variable {0} has not been assigned a value")]
+    UnknownVariable(String),
 }
 
 /// Could not construct static iterator
